@@ -15,7 +15,8 @@ import warnings
 import numpy as np
 
 from sim.kernel import EventLog, PlanRng, Violation, call, sig
-from sim.seams import own_entropy, ScriptedGenerator, ambient_perturb, import_dreye
+from sim.seams import (LineInterrupter, ScriptedGenerator, SimInterrupt, WarningsAsErrors,
+                       ambient_perturb, import_dreye, own_entropy)
 
 ID = "C13"
 PANEL_PER_MODE = 2
@@ -216,6 +217,14 @@ def generate(rs, mode, tier, index):
         if rng.coin(0.25):
             ops.append({"noise": rng.choice(["mean_width", "sample_other", "np_global"]),
                         "seed": rng.integers(0, 5)})
+        if mode != "clean" and rng.coin(0.2):
+            # a sampling call that is aborted part-way (Ctrl-C) or run under -W error: whatever
+            # it leaves behind must not show in later calls
+            ca = random_call(rng, ctx, mode, tier)
+            ca.pop("l1", None)
+            ca["n"] = min(ca["n"], 100)
+            ops.append({"abort": ca, "how": rng.choice(["interrupt", "warnings"], p=[0.75, 0.25]),
+                        "frac": float(sig(rng.random(), 4))})
         if sysd is not None and rng.coin(0.2):
             # the system's registered values change between sampling calls: later samples
             # must lie in the *current* gamut
@@ -421,6 +430,43 @@ def execute(plan):
                 for k in perturbed_since:
                     perturbed_since[k] = True
                 log.add(oi, "mut", op["mut"])
+                continue
+            if "abort" in op:
+                ca = op["abort"]
+
+                def do_call():
+                    sd = make_seed(ca["seed"])
+                    if ca["t"] == "est":
+                        return est.sample_in_gamut(n=ca["n"], seed=sd,
+                                                   engine=make_engine(ca["engine"],
+                                                                      sysd["n_rec"] + 1),
+                                                   relative=ca.get("relative", True))
+                    return _dreye.sample_in_hull(clouds[ca["t"]], ca["n"], seed=sd,
+                                                 engine=make_engine(ca["engine"], dim + 1))
+
+                if op["how"] == "interrupt":
+                    with LineInterrupter(None) as li0:
+                        call(do_call)
+                    if li0.count:
+                        with LineInterrupter(int(op["frac"] * li0.count)) as li:
+                            try:
+                                call(do_call)
+                            except SimInterrupt:
+                                bump("fault:line_interrupt")
+                        log.add(oi, "abort", li.fired_at)
+                else:
+                    with WarningsAsErrors():
+                        r_w = call(do_call)
+                    if not r_w.ok:
+                        bump("fault:warnings_as_errors")
+                    log.add(oi, "abort-W", r_w.kind)
+                for k in perturbed_since:
+                    perturbed_since[k] = True
+                for name in clouds:
+                    if not np.array_equal(clouds[name], ref_clouds[name]):
+                        raise Violation(ID, "caller_cloud_modified",
+                                        f"an aborted sampling call modified the point cloud "
+                                        f"{name} in place", call=ca, op=oi)
                 continue
             if "noise" in op:
                 # unrelated consumers of randomness between two sampling calls
